@@ -21,9 +21,9 @@ let top_string (r : topbox list Base.res) : string =
   | Base.Ok [] -> "o:-"
   | Base.Ok l ->
     "o:" ^ S.concat ";" (L.map (fun t -> match t with
-        | TBox (name, sp, size) -> Printf.sprintf "%s:%d:%d" (name_string name) (int_of_n sp) (int_of_n size)
-        | TMdat (m, size) -> Printf.sprintf "6d646174:%d:%d:%d:%s:%d:%d" (int_of_n m.coq_StartPos) (int_of_n size)
-                               (int_of_n m.coq_StartPos) (b2s m.coq_LargeSize) (L.length m.coq_Data) (int_of_n m.lazyDataSize)) l)
+        | TBox (name, sp, size) -> Printf.sprintf "%s:%s:%s" (name_string name) (hex_of_n sp) (hex_of_n size)
+        | TMdat (m, size) -> Printf.sprintf "6d646174:%s:%s:%s:%s:%d:%s" (hex_of_n m.coq_StartPos) (hex_of_n size)
+                               (hex_of_n m.coq_StartPos) (b2s m.coq_LargeSize) (L.length m.coq_Data) (hex_of_n m.lazyDataSize)) l)
   | Base.Err -> "e"
   | Base.Panic -> "p"
   | Base.OutOfFuel -> "FUEL"
@@ -48,8 +48,8 @@ let dec_string (lazy_ : bool) (start_pos : int) (orc : coq_N list) : string * md
   match decode_box_mdat lazy_ !file !zeof (n_of_int start_pos) r with
   | RfOk (m, r') ->
     let (sz, _) = mdat_size m in
-    (Printf.sprintf "o:%d:%s:%d:%d:%d:%d" (int_of_n m.coq_StartPos) (b2s m.coq_LargeSize)
-       (L.length m.coq_Data) (int_of_n m.lazyDataSize) (int_of_n sz) (int_of_n r'.rpos), Some m)
+    (Printf.sprintf "o:%d:%s:%d:%s:%s:%s" (int_of_n m.coq_StartPos) (b2s m.coq_LargeSize)
+       (L.length m.coq_Data) (hex_of_n m.lazyDataSize) (hex_of_n sz) (hex_of_n r'.rpos), Some m)
   | RfEOF -> ("E", None)
   | RfErr -> ("e", None)
   | RfFuel -> ("FUEL", None)
